@@ -415,7 +415,7 @@ func runC14(tier string, seed int64) *Outcome {
 								if (cl.raw != "" || cl.token == "") && transport != "header" {
 									continue
 								}
-								if strings.Contains(rt[1], "schedule") && (transport != "header" || len(cl.name) % 3 != 0) {
+								if strings.Contains(rt[1], "schedule") && (transport != "header" || len(cl.name)%3 != 0) {
 									continue // every valid schedule request creates a job: a sample of the classes suffices here
 								}
 								preq := env.request(rt[0], rt[1])
